@@ -13,6 +13,8 @@ git apply $S/patch.diff || { echo "$id: patch does not apply to HEAD"; echo "pat
 make -j4 >/dev/null 2>&1 || { echo "$id: patched build failed"; exit 2; }
 sh $S/run_demo.sh $W > $OUT/demo_patched.out 2>&1; rc1=$?
 make check > $OUT/make_check_patched.log 2>&1
+# some demonstrations use the test build of the tool (src/test-lha), which only exists after `make check`
+if [ $rc1 -eq 0 ]; then sh $S/run_demo.sh $W > $OUT/demo_patched.out 2>&1; rc1=$?; fi
 npass=$(grep -c '^PASS:' $OUT/make_check_patched.log); nfail=$(grep -c '^FAIL:\|^ERROR:' $OUT/make_check_patched.log)
 cp $S/patch.diff $OUT/; for f in $S/*; do case "$f" in *.log|*.out) ;; *) [ -f "$f" ] && [ $(stat -c %s "$f") -lt 300000 ] && cp "$f" $OUT/ ;; esac; done
 [ -d $S/inputs ] && mkdir -p $OUT/inputs && cp $S/inputs/* $OUT/inputs/ 2>/dev/null
